@@ -25,8 +25,15 @@ ALL = "all"      # substitution "every sub-function present" (the assembled mixe
 # spaces
 
 def sub_element(cell, sh, degree=1):
+    """sh: a value shape (Lagrange), a list (nested MixedElement), or "sym2": a symmetric 2x2 tensor
+    element, whose REFERENCE value size (3) differs from its physical value size (4) -- flattened
+    offsets of later sub-elements must be counted in physical components."""
     if isinstance(sh, list):
         return MixedElement([sub_element(cell, s, degree) for s in sh])
+    if sh == "sym2":
+        from elements import SymmetricElement
+        p1 = LagrangeElement(cell, degree, ())
+        return SymmetricElement({(0, 0): 0, (0, 1): 1, (1, 0): 1, (1, 1): 2}, [p1, p1, p1])
     return LagrangeElement(cell, degree, tuple(sh))
 
 
@@ -64,6 +71,8 @@ class MixedSetup:
 
     def name(self):
         def s(x):
+            if isinstance(x, str):
+                return "Y"
             return "m" + "".join(s(y) for y in x) if isinstance(x, list) else ("s" if not x else "v" * len(x))
         t = "" if self.trial_shapes == self.shapes else "_" + "".join(s(x) for x in self.trial_shapes)
         return f"{self.kind}_{''.join(s(x) for x in self.shapes)}{t}"
